@@ -75,11 +75,6 @@ def strategyOf {σ} (ofName : String → Option σ) (n : Option String) : Except
     | some s => pure (some s)
     | none => throw s!"unknown strategy {n}"
 
-/-- `lowpass(cutoff)` (default strategy `pole`, model of property C13) as `(b, a)` with `a0 = 1` dropped -/
-def poleDesign (c : Float) : List Float × List Float :=
-  let k := ALV.C13.lowpassPole c
-  (k.num, k.den.drop 1)
-
 /-- Inputs longer than this are "long": their specification is evaluated through the one-pass
     recursion `…SpecRec` (linear time) instead of the closed form (quadratic).  The two are equal
     for all inputs: `ALV.Props.C20.rat_spec_recursions`. -/
@@ -131,8 +126,8 @@ def handle (entry : String) (j : Json) : Except String Json := do
     let a ← getList getFloat (← field j "a")
     let xs ← getList getFloat (← field j "xs")
     pure <| Json.mkObj [
-      ("abs", arr floatToJson (envelopeAbs b a xs)),
-      ("squared", arr floatToJson (envelopeSquared b a xs))]
+      ("abs", arr floatToJson (F.envelopeAbs b a xs)),
+      ("squared", arr floatToJson (F.envelopeSquared b a xs))]
   | "envelope" =>
     let b ← getList getRat (← field j "b")
     let a ← getList getRat (← field j "a")
@@ -255,9 +250,15 @@ def handle (entry : String) (j : Json) : Except String Json := do
     let st ← strategyOf AccStrategy.ofName (← omStr j "strategy")
     let zero ← omRat j "zero"
     let xs ← getList getRat (← field j "xs")
+    -- `z` with a memory value: the running sums start at `zero` (theorems accumulate_z_memory,
+    -- rat_calls_memory); the other strategies have no such parameter
+    let base := if xs.length > longLen then R.accSpecRec xs else R.accSpec xs
+    let spec := match st with
+      | some AccStrategy.z => base.map (zero.getD 0 + ·)
+      | _ => base
     pure <| Json.mkObj [
       ("model", rats (R.accumulateCall st zero xs)),
-      ("spec", rats (if xs.length > longLen then R.accSpecRec xs else R.accSpec xs))]
+      ("spec", rats spec)]
   | "amdf_call" =>
     let lag ← getNat (← field j "lag")
     let size ← getNat (← field j "size")
@@ -277,10 +278,19 @@ def handle (entry : String) (j : Json) : Except String Json := do
       | some v => do let c ← getFloat v; pure (some c)
     let xs ← getList getFloat (← field j "xs")
     let c := cutoff.getD (dnum floatPi Dflt.envelope_cutoff)
-    let ba := poleDesign c
+    let ba : List Float × List Float := poleDesign c
     pure <| Json.mkObj [
-      ("model", arr floatToJson (envelopeCall poleDesign Float.sqrt floatPi st cutoff xs)),
+      ("model", arr floatToJson (F.envelopePoleCall st cutoff xs)),
+      ("spec", arr floatToJson (F.envelopeSpec st cutoff xs)),
       ("eff_cutoff", floatToJson c), ("b", arr floatToJson ba.1), ("a", arr floatToJson ba.2)]
+  | "envelope_var" =>
+    -- a cutoff per sample (Float twin): the per-sample pole is the expression of C13's lowpass.pole
+    let st ← strategyOf EnvStrategy.ofName (← omStr j "strategy")
+    let cs ← getList getFloat (← field j "cutoffs")
+    let xs ← getList getFloat (← field j "xs")
+    pure <| Json.mkObj [
+      ("model", arr floatToJson (F.envelopeVarCall st cs xs)),
+      ("spec", arr floatToJson (F.envelopeVarSpec st cs xs))]
   | "coeffs" =>
     -- the coefficient lists the filter-built strategies are modelled with (structural tie)
     let size ← getNat (← field j "size")
